@@ -1463,7 +1463,8 @@ pub struct ConfidentialityObserver {
     pub nontrivial: u64,
     pub classes: BTreeSet<String>,
     /// message count per evicted client at the time of eviction
-    evicted_counts: BTreeMap<usize, usize>,
+    /// per client: (membership stint the count belongs to, stored messages when that eviction was noticed)
+    evicted_counts: BTreeMap<usize, (u32, usize)>,
 }
 
 fn root_of(w: &World, mut idx: usize) -> usize {
@@ -1595,9 +1596,21 @@ impl Observer for ConfidentialityObserver {
             }
         }
         // after its own removal a client stores nothing any more, cannot send, and the group is inactive
+        if w.full(who).mls_active == Some(false) && w.group_state(who) == Some(mdk_storage_traits::groups::types::GroupState::Active) {
+            return Err(Failure::new(
+                "removed-client-not-inactive",
+                format!("after event #{idx} c{who}'s MLS state has merged its own removal (the group is no longer active there), yet the stored group record is still Active"),
+            ));
+        }
         if let Some(at) = cl.evicted_at {
             let n = w.full(who).msgs_created.len();
-            let base = *self.evicted_counts.entry(who).or_insert(n);
+            // a re-invited client stores messages again (its own too, without any delivery): count
+            // from the eviction that ended the current stint
+            let e = self.evicted_counts.entry(who).or_insert((cl.stint, n));
+            if e.0 != cl.stint {
+                *e = (cl.stint, n);
+            }
+            let base = e.1;
             if cl.cur.is_none() && w.step > at {
                 self.classes.insert("event-offered-after-own-removal".into());
                 if n > base {
@@ -1608,7 +1621,7 @@ impl Observer for ConfidentialityObserver {
                 }
             } else {
                 // re-joined or rolled back into the group: start over
-                self.evicted_counts.insert(who, n);
+                self.evicted_counts.insert(who, (cl.stint, n));
             }
         }
         Ok(())
